@@ -536,6 +536,6 @@ def body_fillna_frame_layouts(env, m0, m1, m2, m3, k0, shuffle):
 
 _add(Cond('frame_fillna_frame_all_layouts', [('m0', 'bool'), ('m1', 'bool'), ('m2', 'bool'), ('m3', 'bool'), ('k0', 'int'), ('shuffle', 'bool')], body_fillna_frame_layouts,
         ranges={'k0': (0, 2)},
-        functions=['Frame.fillna', 'TypeBlocks.fillna_by_values'],
+        functions=['Frame.fillna'],
         bounds='2x4 frame: a never-missing first column of symbolic kind (int64 / str / float64) followed by three float columns with symbolic missing cells; filler Frame over the float columns with rows and columns in the same or another order (symbolic); every block layout',
         route='Frame.fillna(Frame): every missing cell takes the filler cell of its own (row, column) labels, blocks without missing cells before blocks with them included', timeout=400))
